@@ -179,7 +179,7 @@ def run(ctx):
         peer = Peer(fam)
         try:
             # 1. stacks 0-4
-            for i in range(ctx.pick(120, 2500)):
+            for i in range(ctx.pick(120, 10000)):
                 depth = rng.randint(0, 4)
                 dicts = [gen_dict(rng) for _ in range(depth)]
                 for j in range(2, depth):
@@ -237,7 +237,7 @@ def run(ctx):
                         break
                 proxy("close")()
             # 3. block histories: depth <= 3, all exit patterns
-            for rep in range(ctx.pick(2, 30)):
+            for rep in range(ctx.pick(2, 120)):
                 for k in (1, 2, 3):
                     for pattern in itertools.product((False, True), repeat=k):
                         config = jsonrpclib.config.Config()
